@@ -220,6 +220,15 @@ where
             if inside(&w.map) != inside(&want) {
                 obs.fail("draw(translate(d))==shift(draw,d)-inside-a-target-window", format!("image, window {:?}: {}", rt(&win), map_diff(&inside(&w.map), &inside(&want))));
             }
+            // and behind the library's own clipped() adapter (which crops the colour stream itself)
+            {
+                use embedded_graphics::draw_target::DrawTargetExt;
+                let mut parent = RecN::<I::Color>::new();
+                moved.draw(&mut parent.clipped(&win)).unwrap();
+                if parent.map != inside(&want) {
+                    obs.fail("draw(translate(d))==shift(draw,d)-inside-a-target-window", format!("image behind clipped({:?}): {}", rt(&win), map_diff(&parent.map, &inside(&want))));
+                }
+            }
         }
     }
     let mut m = image;
